@@ -19,11 +19,12 @@ from harness.C14 import oracle
 PROPS_GEN = ["no_ub", "compare_mixed_correct", "compare_mixed_correct_unsigned", "compare_mixed_correct_rat", "method_tables_ok", "dispatch_left_then_reversed_right",
              "nary_mod_is_left_fold", "nary_rows_complete", "poly_compare_correct", "compare_chain_correct", "string_entries_complete",
              "math_registrations_ok", "poly_predicates_correct", "parity_predicates_correct", "poly_predicates_table",
-             "s64_type_mixes_agree", "u64_type_mixes_agree", "s64_u64_cross_mixes_agree"]
+             "s64_type_mixes_agree", "u64_type_mixes_agree", "s64_u64_cross_mixes_agree",
+             "unwrap_number_exact_or_rejected", "unwrap_range"]
 PROPS = ["wrap_ops_eq_bitvec", "wrap_ops_in_range", "shift_ops_eq_bitvec", "divf_eq_floor_div", "mod_eq_floor_mod", "trunc_div_rem_correct",
          "mod_zero_is_dividend", "div_zero_errors", "no_ub_iff_guarded", "no_ub_partial", "ub_reachable_on_pinned",
          "cmpIntDbl_is_exact", "cmpIntDbl_eq_rat", "rnd53_exact_small_monotone_edge", "compare_mixed_correct_of_inclusive", "compare_mixed_partial",
-         "compare_wrong_on_pinned", "compare_ints_correct", "unwrap_range",
+         "compare_wrong_on_pinned", "compare_ints_correct", "unwrap_number_wraps_with_rounded_up_bound",
          "varops_are_left_folds", "nary_methods_wrap", "nary_methods_are_left_folds", "nary_mod_not_fold_on_pinned",
          "chained_comparators_are_conjunctions", "chained_comparison_short_circuits", "poly_comparators_are_chains",
          "ieee_rounding_is_nearest_even", "ieee_rounding_nearest_among_doubles", "ieee_ops_correctly_rounded", "ieee_floor_exact_and_ops_exact_when_representable",
@@ -43,7 +44,8 @@ LEMMAS = ["opMethod_add", "opMethod_sub", "opMethod_mul", "opMethod_and", "opMet
           "methodLoop_zero_irrelevant", "methodLoop_eq_fold", "callCfunN_eq_fold", "comparatorLoop_conj", "comparatorLoop_first_failure", "compareReduce_eq_loop",
           "callCfun2_str_ok", "callCfun2_str_err", "scanDigits_some", "scanDigits_overflow_none", "scan_results_in_range",
           "bitop32_and", "bitop32_or", "bitop32_xor", "bitop32_shl", "bitop32_sar", "bitop32_shr", "checkIntRange_iff",
-          "decode_encodeInt", "unwrap_ofInt", "toNumber_eval", "toBytes_round_trip"]
+          "decode_encodeInt", "unwrap_ofInt", "toNumber_eval", "toBytes_round_trip",
+          "numToS64W_exact", "numToU64W_exact", "numToW_some_iff", "unwrap_window_rounded_up_wraps"]
 ENV = dict(os.environ, ASAN_OPTIONS="detect_leaks=0:abort_on_error=0", UBSAN_OPTIONS="print_stacktrace=0")
 HARNESS_SRC = os.path.join(VERIF, "harness/C14/arith.c")
 NJOBS = 12
@@ -151,7 +153,25 @@ def witness_lines(flags):
         w += ["cmpsd 5 43e0000000000000", "compare s:5 n:43e0000000000000", "compare n:43e0000000000000 s:9223372036854775807", "compare s:-9223372036854775808 n:43e0000000000000"]
     if flags.get("cmpU64Upper") != ">=":
         w += ["cmpud 5 43f0000000000000", "compare u:5 n:43f0000000000000", "compare n:43f0000000000000 u:18446744073709551615"]
+    # number branch of janet_unwrap_s64 / janet_unwrap_u64: every edge of the regenerated window that is outside the type or outside
+    # the documented +-2^53 window, as a number operand of the constructor and of a direct / reversed method
+    for kind, tag in (("S64", "s"), ("U64", "u")):
+        lo, hi = flags.get("unwrap%sLo" % kind), flags.get("unwrap%sHi" % kind)
+        for v in (lo, hi):
+            if v is None or abs(v) <= 2 ** 53 or float(v) != v:
+                continue
+            bits = "%016x" % oracle.f2b(float(v))
+            w += ["int/%s64 n:%s" % (tag, bits), "+ %s:1 n:%s" % (tag, bits), "- n:%s %s:1" % (bits, tag), "* %s:1 n:%s" % (tag, bits)]
     return w
+
+
+def unwrap_window_ok(flags):
+    """the obligation of unwrap_number_exact_or_rejected on the regenerated window: inside int64_t / uint64_t"""
+    try:
+        return (-(2 ** 63) <= flags["unwrapS64Lo"] and flags["unwrapS64Hi"] <= 2 ** 63 - 1 and
+                0 <= flags["unwrapU64Lo"] and flags["unwrapU64Hi"] <= 2 ** 64 - 1)
+    except KeyError:
+        return True
 
 
 def run(ctx):
@@ -182,6 +202,14 @@ def run(ctx):
             named.append("JanetModel.Props.C14.compare_mixed_correct (edge comparison of compare_int64_double / compare_uint64_double is exclusive: 2^63 resp. 2^64 reach the cast)")
         if flags and flags.get("loopZero", {}).get("mod") == "return":
             named.append("JanetModel.Props.C14.nary_mod_is_left_fold (the loop of DIVMETHOD ends the call at a zero divisor of `mod`: (:mod x 0 y) is x, not the fold)")
+        if flags and not unwrap_window_ok(flags):
+            named.append("JanetModel.Props.C14.unwrap_number_exact_or_rejected (the number branch of janet_unwrap_s64 / janet_unwrap_u64 accepts the integral doubles in "
+                         "[%d, %d] resp. [%d, %d], bounds evaluated as the C compiler does; that window is not inside int64_t / uint64_t, so its edge — "
+                         "2^63 for `(double) INT64_MAX`, 2^64 for `(double) UINT64_MAX` — reaches the cast `(T) d` and wraps instead of raising)" %
+                         (flags["unwrapS64Lo"], flags["unwrapS64Hi"], flags["unwrapU64Lo"], flags["unwrapU64Hi"]))
+        elif flags and (flags.get("unwrapS64Lo"), flags.get("unwrapS64Hi"), flags.get("unwrapU64Lo"), flags.get("unwrapU64Hi")) != (-2 ** 53, 2 ** 53, 0, 2 ** 53):
+            named.append("JanetModel.Props.C14.unwrap_range (number operands are accepted in [%d, %d] resp. [%d, %d], not in the documented window of magnitude <= 2^53)" %
+                         (flags["unwrapS64Lo"], flags["unwrapS64Hi"], flags["unwrapU64Lo"], flags["unwrapU64Hi"]))
         broken += named + pb
         # the generic lemmas still hold?  (separate module, does not depend on the failing instantiations)
         ctx.broken = [x for x in ctx.broken if x not in pb]
@@ -312,6 +340,22 @@ def run(ctx):
                                                          "model": model[i] if model else None, "theorem": "num_ops_exact_on_integers / number_ops_agree_with_s64_ops"},
                       what="integer operands of magnitude <= 2^53: `%s` must be the integer %d in every type mix, observed %s" % (janet_expr(l), want, impl[i]))
         reported.add("wrong-result:" + l.split()[0])
+    # the edge of the number window of janet_unwrap_* that is outside the type (theorem unwrap_number_exact_or_rejected does not check):
+    # the constructor applied to that double must raise; a value means the cast wrapped
+    if flags and not unwrap_window_ok(flags):
+        for i in direct:
+            l = lines[i]
+            t = l.split()
+            if t[0] in ("int/s64", "int/u64") and len(t) == 2 and t[1].startswith("n:") and impl[i] and impl[i][:2] in ("s:", "u:"):
+                v = oracle.b2f(int(t[1][2:], 16))
+                fits = (-(2 ** 63) <= v <= 2 ** 63 - 1) if t[0] == "int/s64" else (0 <= v <= 2 ** 64 - 1)
+                if not fits and "wraps:" + t[0] not in reported:
+                    reported.add("wraps:" + t[0])
+                    ctx.violation("wraps:" + t[0], {"kind": "wrong-result", "input": l, "janet": janet_expr(l), "expected": exp[i], "observed": impl[i],
+                                                    "model": model[i] if model else None, "theorem": "unwrap_number_exact_or_rejected",
+                                                    "window": [flags.get(k) for k in ("unwrapS64Lo", "unwrapS64Hi", "unwrapU64Lo", "unwrapU64Hi")],
+                                                    "broken_obligations": broken[:6]},
+                                  what="number operand outside the type is accepted and wrapped: `%s` (the number %d) is %s, must raise" % (janet_expr(l), int(v), impl[i]))
     for i in sorted(direct, key=lambda i: (lines[i].count("t:"), len(lines[i]), lines[i])):
         l = lines[i]
         t = l.split()
@@ -363,7 +407,8 @@ def run(ctx):
                            "rule": "|x|,|y| <= 2^53; number/s64/u64 mixes of + - * div mod %; expected = exact integer (Python ints), claim where the theorems apply"}, "model_ub_lines": len(ub_lines), "crashes": len(crashes),
         "result_kinds_hit": dict(sorted(kinds.items())), "operator_mix": dict(sorted(ops.items())), "type_mix": dict(sorted(mixes.items())),
         "gen_flags": {k: flags.get(k) for k in ("divfGuard", "divfiGuard", "modGuard", "modiGuard", "guard_DIVMETHOD_SIGNED", "guard_DIVMETHODINVERT_SIGNED",
-                                                "cmpS64Upper", "cmpS64Lower", "cmpU64Upper")},
+                                                "cmpS64Upper", "cmpS64Lower", "cmpU64Upper", "unwrapS64Lo", "unwrapS64Hi", "unwrapU64Lo", "unwrapU64Hi",
+                                                "unwrapS64Test", "unwrapU64Test")},
     }
     return ctx.finish("proof", cov, assumptions=[
         "IEEE-754 arithmetic on two plain numbers: the model's own executable instance (Int64/Ieee.lean: exact rational result, rounded once to nearest-even; "
